@@ -648,6 +648,26 @@ fn define_function(env: &mut PackageTypeEnv, diagnostics: &mut Diagnostics, func
                 .to_string(),
         ));
     }
+    // the bounds are checked where the function is called (unknown traits are reported when
+    // the function itself is checked)
+    let bounds: Vec<(String, Vec<String>)> = func
+        .generic_bounds
+        .iter()
+        .map(|(param, traits)| {
+            let traits = traits
+                .iter()
+                .filter_map(|path| {
+                    super::util::resolve_trait_name(env, &path.display())
+                        .map(|(resolved, _)| resolved)
+                })
+                .collect::<Vec<_>>();
+            (param.to_ident_name(), traits)
+        })
+        .filter(|(_, traits)| !traits.is_empty())
+        .collect();
+    if !bounds.is_empty() {
+        env.current_mut().fn_bounds.insert(name.clone(), bounds);
+    }
     env.current_mut().value_env.funcs.insert(
         name,
         FnScheme {
